@@ -76,6 +76,10 @@ func (c *VChan) PeerClosed() bool { return c.peerClosed }
 // FailSends makes every subsequent Send report an error.
 func (c *VChan) FailSends() { c.mu.Lock(); c.sendFail = true; c.mu.Unlock() }
 
+// Lock and Unlock give the harness consistent access to Out.
+func (c *VChan) Lock()   { c.mu.Lock() }
+func (c *VChan) Unlock() { c.mu.Unlock() }
+
 // Closes reports how often Close was called.
 func (c *VChan) Closes() int { c.mu.Lock(); defer c.mu.Unlock(); return c.closed }
 
